@@ -43,7 +43,7 @@ prop('C09',
 prop('C10',
      [('R00.dyn', RG.rule_no_dynamic), ('R10.d', RP.rule_definition), ('R03.d', RP.rule_core),
       ('R10.k', RP.rule_cut_shift),
-      ('R10.w', RP.rule_wca), ('R10.p', RP.rule_purity), ('R10.t', RP.rule_contact)],
+      ('R10.w', RP.rule_wca), ('R10.p', RP.rule_purity), ('R10.h', RP.rule_history), ('R10.t', RP.rule_contact)],
      'Static analysis of pyPRISM/potential: constructors and calculate(r) of every Potential subclass are abstractly '
      'interpreted with symbolic parameters (stored lambdas inlined with their captured constructor arguments, '
      'super().calculate followed through the MRO) for every flag valuation (rcut None/given, shift); the piecewise '
@@ -56,7 +56,8 @@ prop('C10',
 prop('C03',
      [('R00.dyn', RG.rule_no_dynamic), ('R03.a', RC.rule_core), ('R03.b', RC.rule_mask_sites),
       ('R03.c', RC.rule_noflag_limit),
-      ('R03.d', RP.rule_core), ('R09.p', RC.rule_purity), ('R09.h', RC.rule_history)],
+      ('R03.d', RP.rule_core), ('R09.p', RC.rule_purity), ('R09.h', RC.rule_history),
+      ('R16.w', RP2.rule_wiring), ('R16.c', RP2.rule_copy_and_frame), ('R10.h', RP.rule_history)],
      'Static analysis: (a) with the hard-core flag every closure returns exactly -1-gamma on r<sigma and r==sigma '
      '(three orderings enumerated on the extracted piecewise term), hence c+gamma=-1 there for every gamma; '
      '(b) the mask compares the grid argument with the closure own sigma; (c) PY and HNC without the flag reduce to '
@@ -219,7 +220,7 @@ prop('C11',
      [('R00.dyn', RG.rule_no_dynamic), ('R11.d', ROm.rule_closed_forms), ('R11.d', ROm.rule_ring),
       ('R11.d', ROm.rule_trivial), ('R11.a', ROm.rule_aliases), ('R11.m', ROm.rule_koyama_multiplicity),
       ('R11.k', ROm.rule_koyama_kernel), ('R11.v', ROm.rule_koyama_rejection), ('R11.e', ROm.rule_nfjc),
-      ('R11.l', ROm.rule_library_names)],
+      ('R11.h', ROm.rule_history), ('R11.l', ROm.rule_library_names)],
      'Static analysis of pyPRISM/omega: Gaussian and FreelyJointedChain terms are extracted with a symbolic chain length '
      '(E^(N+1) as a symbolic power) and compared with the closed form, whose equality with the defining pair sum '
      '(1/N) sum_ij E^|i-j| is certified by a 4-step induction checked by the normaliser on every run, plus explicit pair '
@@ -240,7 +241,7 @@ def _r17_libnames(ctx):
 
 
 prop('C17',
-     [('R00.dyn', RG.rule_no_dynamic), ('R17.d', RU.rule_conversions), ('R17.u', RU.rule_unit_literals)],
+     [('R00.dyn', RG.rule_no_dynamic), ('R17.d', RU.rule_conversions), ('R17.r', RU.rule_registry_isolation), ('R17.u', RU.rule_unit_literals)],
      'Static analysis of pyPRISM/util/UnitConverter.py: the constructor and the six documented conversion methods are '
      'abstractly interpreted with pint quantities modelled as (magnitude term, unit monomial); the pinned pint registry is '
      'consulted as library metadata for existence, dimensionality, base factor and offset of every unit literal (a '
